@@ -94,10 +94,16 @@ class Seams:
             def execute(self, sql, *args):
                 seams.ctl.event('sql', sql, self)
                 try:
-                    return _sqlite3.Connection.execute(self, sql, *args)
+                    result = _sqlite3.Connection.execute(self, sql, *args)
                 except _sqlite3.OperationalError:
                     seams.ctl.event('sql-error', sql, self)
                     raise
+                # a second yield point AFTER the statements that release the write lock: other clients may run between the end
+                # of a transaction and the Python code that follows it (file clean-up, bookkeeping)
+                head = sql.lstrip()[:8].upper()
+                if head.startswith('COMMIT') or head.startswith('ROLLBACK'):
+                    seams.ctl.event('sql-after', head.split()[0], self)
+                return result
 
         def connect(*args, **kwargs):
             kwargs.setdefault('factory', HookConn)
